@@ -43,16 +43,21 @@ pub struct Obs<E> {
     pub events: Vec<E>,
     pub packets: Vec<(Vec<u8>, bool)>,
     pub unhandleable: usize,
+    /// order in which results were returned: (0, packet index) | (1, event index) | (2, _)
+    pub order: Vec<(u8, usize)>,
 }
 
 impl<E> Obs<E> {
+    pub fn empty() -> Obs<E> {
+        Obs { panicked: None, err: None, events: Vec::new(), packets: Vec::new(), unhandleable: 0, order: Vec::new() }
+    }
     pub fn ok(&self) -> bool {
         self.panicked.is_none() && self.err.is_none()
     }
 }
 
 fn empty_obs<E>() -> Obs<E> {
-    Obs { panicked: None, err: None, events: Vec::new(), packets: Vec::new(), unhandleable: 0 }
+    Obs::empty()
 }
 
 pub fn set_clock_ms(ms: u64, backwards: bool) {
@@ -318,6 +323,16 @@ impl ServerH {
         v
     }
 
+    /// Logic fingerprint without the acknowledgement byte counter (its last four bytes), and the
+    /// deserializer: what decides future decoded observations other than acknowledgements.
+    pub fn fp_partition(&self) -> Vec<u8> {
+        let mut v = self.fp_logic();
+        let n = v.len() - 4;
+        v.truncate(n);
+        self.s.verif_fingerprint_deserializer(&mut v);
+        v
+    }
+
     pub fn fp_full(&self) -> Vec<u8> {
         let mut v = self.fp_logic();
         self.s.verif_fingerprint_codec(&mut v);
@@ -331,9 +346,18 @@ impl ServerH {
 pub fn collect_server(results: Vec<ServerSessionResult>, o: &mut Obs<ServerSessionEvent>) {
     for r in results {
         match r {
-            ServerSessionResult::OutboundResponse(Packet { bytes, can_be_dropped }) => o.packets.push((bytes, can_be_dropped)),
-            ServerSessionResult::RaisedEvent(e) => o.events.push(e),
-            ServerSessionResult::UnhandleableMessageReceived(_) => o.unhandleable += 1,
+            ServerSessionResult::OutboundResponse(Packet { bytes, can_be_dropped }) => {
+                o.order.push((0, o.packets.len()));
+                o.packets.push((bytes, can_be_dropped));
+            }
+            ServerSessionResult::RaisedEvent(e) => {
+                o.order.push((1, o.events.len()));
+                o.events.push(e);
+            }
+            ServerSessionResult::UnhandleableMessageReceived(_) => {
+                o.order.push((2, 0));
+                o.unhandleable += 1;
+            }
         }
     }
 }
@@ -497,6 +521,14 @@ impl ClientH {
         v
     }
 
+    pub fn fp_partition(&self) -> Vec<u8> {
+        let mut v = self.fp_logic();
+        let n = v.len() - 4;
+        v.truncate(n);
+        self.c.verif_fingerprint_deserializer(&mut v);
+        v
+    }
+
     pub fn fp_full(&self) -> Vec<u8> {
         let mut v = self.fp_logic();
         self.c.verif_fingerprint_codec(&mut v);
@@ -510,9 +542,18 @@ impl ClientH {
 pub fn collect_client(results: Vec<ClientSessionResult>, o: &mut Obs<ClientSessionEvent>) {
     for r in results {
         match r {
-            ClientSessionResult::OutboundResponse(Packet { bytes, can_be_dropped }) => o.packets.push((bytes, can_be_dropped)),
-            ClientSessionResult::RaisedEvent(e) => o.events.push(e),
-            ClientSessionResult::UnhandleableMessageReceived(_) => o.unhandleable += 1,
+            ClientSessionResult::OutboundResponse(Packet { bytes, can_be_dropped }) => {
+                o.order.push((0, o.packets.len()));
+                o.packets.push((bytes, can_be_dropped));
+            }
+            ClientSessionResult::RaisedEvent(e) => {
+                o.order.push((1, o.events.len()));
+                o.events.push(e);
+            }
+            ClientSessionResult::UnhandleableMessageReceived(_) => {
+                o.order.push((2, 0));
+                o.unhandleable += 1;
+            }
         }
     }
 }
